@@ -103,7 +103,13 @@ def decodeOp (pool : Array Nat) (j : Json) : Option Op :=
             | Json.arr #[Json.str n, v] => some (n, jsonKw v)
             | _ => none))
         | _ => none)
-      (optKw j "caa") (optNat j "prot"))
+      (optKw j "caa") (optNat j "prot")
+      (match j.getObjVal? "nx" with
+        | .ok (Json.arr a) => some (a.toList.filterMap (fun p => match p with
+            | Json.arr #[Json.str n, v] => some (n, jsonKw v)
+            | _ => none))
+        | _ => none)
+      (optKw j "sa"))
   | "array" => (cid "src").map (fun s => Op.array s (optStr j "member") (jsonKw (j.getObjValD "kw"))
       (getBool j "flat") (getBool j "iter"))
   | "mand" => (cid "src").map Op.mandatory
